@@ -112,16 +112,27 @@ func c11Run(c *fw.Ctx) {
 			}
 			return ans(500, "directory unavailable")
 		}
+		// the authenticator honours only the most recently issued access token (as an identity provider
+		// does once a token was replaced through a refresh)
+		current := "at"
 		e.Auth.Answer = func(cl *harness.AuthCall) harness.AuthAnswer {
 			a := ans(500, "unexpected")
+			stale := cl.Header.Get("X-Access-Token") != "" && cl.Header.Get("X-Access-Token") != current
 			switch cl.Endpoint {
 			case "redeem":
 				a = ans(200, harness.JSON(map[string]interface{}{"access_token": "at", "refresh_token": "rt", "expires_in": 3600, "email": em.Email}))
 			case "profile":
 				a = profile()
+				if stale {
+					a = ans(401, `{"error":"token expired"}`)
+				}
 			case "validate":
 				a = ans(200, "{}")
+				if stale {
+					a = ans(401, `{"error":"token expired"}`)
+				}
 			case "refresh":
+				current = "at2"
 				a = ans(201, `{"access_token":"at2","expires_in":3600}`)
 			}
 			cl.Answer = describeAnswer(a)
@@ -138,10 +149,7 @@ func c11Run(c *fw.Ctx) {
 		hdr := http.Header{"Cookie": {csrf.Name + "=" + csrf.Value}}
 		r2 := e.Do(harness.NewRequest("GET", "/oauth2/callback?code=c&state="+url.QueryEscape(u.Query().Get("state")), hostA, hdr, nil))
 		sc := r2.Cookie(harness.CookieName)
-		verdict := []string{"refused", "-", "-"}
-		if c.Thorough() {
-			verdict = append(verdict, "-")
-		}
+		verdict := []string{"refused", "-", "-", "-"}
 		if r2.Status == 302 && sc != nil && sc.Value != "" {
 			verdict[0] = "admitted"
 			// stage 2: a request while no check is due
@@ -162,7 +170,7 @@ func c11Run(c *fw.Ctx) {
 				if nc := r4.Cookie(harness.CookieName); nc != nil {
 					raw = nc.Value
 				}
-				// stage 4 (thorough): a request after the access token ran out (refreshed through the authenticator)
+				// stage 4: a request after the access token ran out (refreshed through the authenticator)
 				if len(verdict) > 3 {
 					if raw != "" && verdict[2] == "admitted" {
 						setNow(3700)
@@ -286,8 +294,8 @@ func init() {
 		ID:    "C11",
 		Level: "exploration",
 		Rule: "full product on a proxy built like cmd/sso-proxy (validators exactly as proxy.New builds them): rule sets = every combination of {absent, listed value, lone *, * with another value} for addresses, domains and groups (63 policies) x 16 emails (exact, case-varied, prefix/suffix look-alikes, plus-tagged and dotted variants of a listed address, look-alike domain, sub-domain, domain as prefix, unlisted, two @, empty local part, non-ASCII local part / domain) x directory {in listed group, in none, error 500, unavailable 503, rate-limited 429, only in groups whose names extend a listed name, only in groups whose names are prefixes of a listed name}; " +
-			"thorough adds rule variants {listed value in upper case, another value + the listed one}, emails {empty, leading/trailing space, case-varied sub-domain, the bare listed domain, a listed address used as local part} and a fourth stage after the access token ran out and was refreshed; " +
-			"each case logs in through the real callback, sends a request while no check is due and one after the validity TTL; oracle = the documented any-of semantics and the same verdict at all three stages (emails whose reading the statement leaves open: consistency only); " +
+			"thorough adds rule variants {listed value in upper case, another value + the listed one} and emails {empty, leading/trailing space, case-varied sub-domain, the bare listed domain, a listed address used as local part}; " +
+			"each case logs in through the real callback, sends a request while no check is due, one after the validity TTL and one after the access token ran out and was refreshed (the scripted authenticator honours only the latest token it issued); oracle = the documented any-of semantics and the same verdict at all three stages (emails whose reading the statement leaves open: consistency only); " +
 			"distinct_nontrivial = distinct (rule set, email class, directory, verdict triple) among cases admitted at login",
 		Assumptions:    []string{"a revalidation whose directory lookup fails refuses regardless of the rules (C04), so that stage is not compared when the directory errors"},
 		Parallel:       true,
